@@ -311,6 +311,8 @@ Section Monitors.
        v10 := true; v11 := true; v14 := true; v18 := true |}.
 
   Definition is_pending (r : dpoll) := match r with DPending => true | _ => false end.
+  (* failing to write a cancellation ends the dispatch; failing to write a request does not *)
+  Definition fatal_cancel (m : cmsg) : bool := match m with MCancel _ _ => true | MReq _ _ _ _ => false end.
 
   (* one op with its observations *)
   Definition chk_obs (maxif : nat) (o : op) (m : mst) (os : list obs) : verdicts * mst :=
@@ -328,7 +330,7 @@ Section Monitors.
     | PollCall _, [] => (vtrue, m1)
     | PollDispatch, [OCalls l; ODisp r; OGauge a b] =>
       let '(v, m2) := chk_calls maxif m1 l in
-      let '(okc, c2) := c_poll (m_contract m2) (l, is_pending r) in
+      let '(okc, c2) := c_poll fatal_cancel (m_contract m2) (l, is_pending r) in
       let vd :=
         {| v01 := true;
            (* C03 (d): after a clean poll that went idle, abandoned requests are covered *)
